@@ -243,8 +243,13 @@ def main(argv):
     if a.limit:
         cases = cases[:a.limit]
     jobs = a.jobs or min(16, os.cpu_count() or 4)
-    workdir = os.path.join(HERE, '.work', prop + '-' + tier)
-    results, problems = run_cases(prop, cases, jobs, workdir)
+    # unique per invocation: two runs of the same check may be in flight at once
+    workdir = os.path.join(HERE, '.work', '%s-%s-%d' % (prop, tier, os.getpid()))
+    try:
+        results, problems = run_cases(prop, cases, jobs, workdir)
+    finally:
+        import shutil
+        shutil.rmtree(workdir, ignore_errors=True)
     wall = time.time() - t0
     return report(mod, prop, tier, a.seed, cases, results, problems, wall, write_evidence=not a.no_evidence)
 
